@@ -287,6 +287,24 @@ class Ctx:
             raise InfraError("model driver %s failed rc=%d: %s" % (name, rc, e[-2000:]))
         return o
 
+    def run_model_lines(self, name, lines, workers=16, timeout=1800):
+        """Run a line-in/line-out model driver on many independent lines, split over several processes.
+        Returns the list of output lines in input order."""
+        import concurrent.futures
+        if not lines: return []
+        k = max(1, min(workers, len(lines) // 4 or 1))
+        chunks = [lines[i::k] for i in range(k)]
+        def one(ch):
+            return self.run_model(name, "\n".join(ch) + "\n", timeout=timeout).split("\n")[:len(ch)]
+        with concurrent.futures.ThreadPoolExecutor(max_workers=k) as ex:
+            outs = list(ex.map(one, chunks))
+        res = [None] * len(lines)
+        for j, o in enumerate(outs):
+            if len(o) != len(chunks[j]):
+                raise InfraError("model driver %s returned %d lines for %d inputs" % (name, len(o), len(chunks[j])))
+            for t, line in enumerate(o): res[j + t * k] = line
+        return res
+
     # ------------------------------------------------------------------ findings / verdict
     def _load_known(self):
         p = os.path.join(VERIF, "known_findings.json")
@@ -314,6 +332,8 @@ class Ctx:
                 if kid not in [h[2] for h in self.known_hits]:
                     self.known_hits.append((signature, k.get("what", what), kid))
                 return False
+        if signature in [v[0] for v in self.violations]:
+            return True
         if len(self.violations) < 50:
             obj = dict(replay_obj) if isinstance(replay_obj, dict) else {"replay": replay_obj}
             obj.setdefault("property", self.pid)
